@@ -69,13 +69,13 @@ P = {
 
 # as-built additions (rounds 8-15 of seeded changes; DESIGN.md section 8)
 ADD = {
- "C01": " Plus, per table: explicit sweep programs (every size of every variable-size entry over a contiguous range, continuation / identical / overlapping / descending argument chains, strings with blank / NUL heads and tails, foreign handles, setters overwritten with other values), a byte-sum sweep (one argument per entry kind through all 256 low-byte values) and a second DFS over one operation per kind to depth 4..16.",
+ "C01": " Plus, per table: explicit sweep programs (every size of every variable-size entry over a contiguous range, continuation / identical / overlapping / descending argument chains, strings with blank / NUL heads and tails, foreign handles, setters overwritten with other values), a byte-sum sweep (one argument per entry kind through all 256 low-byte values), every argument all-zero / all-ones beside ordinary neighbours, and a second DFS over one operation per kind to depth 4..16.",
  "C02": " The sweep programs, byte-sum sweep and kind-level DFS of C01 are judged here too.",
  "C03": " The sweep programs, byte-sum sweep and kind-level DFS of C01 are judged here too.",
  "C04": " The entry layer also uses all-arguments-equal, lower-case-letter and blank fills; the stand-alone structures (PCI-config GAS, typed GenericAddress, HEST error status block and data entry) are compared with their specification layouts; the sweep programs of C01 are judged here too.",
  "C05": " The sweep programs of C01 (sizes, strings, overwritten next_level, foreign parent) are judged here too.",
  "C06": " Plus every sequence of <=3 (thorough 4) field entries over named/reserved x 8 widths.",
- "C07": " Plus every call site with every name form (1, 2, 3, 10 segments, rooted or not) and a directly-written 64-bit child, and the field-entry sequences of C06.",
+ "C07": " Plus every call site with every name form (1, 2, 3, 10 segments, rooted or not) and a directly-written 64-bit child, every container with 0..=300 and up to 65 537 small children, and the field-entry sequences of C06.",
  "C08": " Plus every combination of {00,01,80,ff} over the 8 bytes, every (high, low) dword pair over 22 values, and ResourceTemplate children of every total size 0..70000.",
  "C09": " Plus every string over {name character, dot} up to 14 and over {name character, dot, backslash} up to 10 characters, and well-formed paths with blank / tab / newline / NUL at their edges.",
  "C11": " Plus the CFMWS closure for every interleave-ways value x arithmetic and the TCPA closure for four address spaces of its address arguments.",
